@@ -186,17 +186,18 @@ impl Man {
     }
 
     fn _render_title(&self, roff: &mut Roff) {
-        roff.control("TH", self.title_args());
+        let args = self.title_args();
+        roff.control("TH", args.iter().map(String::as_str));
     }
 
     // Turn metadata into arguments for a .TH macro.
-    fn title_args(&self) -> Vec<&str> {
+    fn title_args(&self) -> Vec<String> {
         vec![
-            &self.title,
-            &self.section,
-            &self.date,
-            &self.source,
-            &self.manual,
+            control_arg(&self.title),
+            control_arg(&self.section),
+            control_arg(&self.date),
+            control_arg(&self.source),
+            control_arg(&self.manual),
         ]
     }
 
@@ -274,7 +275,7 @@ impl Man {
                 .into_iter()
                 .partition(|&a| a.get_help_heading() == Some(heading));
 
-            roff.control("SH", [heading.to_uppercase().as_str()]);
+            roff.control("SH", [control_arg(&heading.to_uppercase()).as_str()]);
             render::options(roff, &args);
         }
     }
@@ -288,7 +289,7 @@ impl Man {
 
     fn _render_subcommands_section(&self, roff: &mut Roff) {
         let heading = subcommand_heading(&self.cmd);
-        roff.control("SH", [heading]);
+        roff.control("SH", [control_arg(heading).as_str()]);
         render::subcommands(roff, &self.cmd, &self.section);
     }
 
@@ -346,4 +347,12 @@ fn app_has_arguments(cmd: &clap::Command) -> bool {
 // Does the application have any subcommands?
 fn app_has_subcommands(cmd: &clap::Command) -> bool {
     cmd.get_subcommands().any(|i| !i.is_hide_set())
+}
+
+/// User-provided text used as the argument of a control line: it must stay one argument on one
+/// line (`roff` quotes arguments with spaces but passes newlines, quotes and backslashes through).
+fn control_arg(text: &str) -> String {
+    text.replace('\\', "\\e")
+        .replace('"', "\\(dq")
+        .replace(['\n', '\r'], " ")
 }
